@@ -3,14 +3,14 @@ package main
 var stubCommon = []string{
 	"kernel sockets (replaced by simnet stream/datagram/listener objects)",
 	"every dial path: Client.Dial*, Transfer.In's dial, ListenAndServe's listenTCP/listenUDP (the harness hands the library ready-made connections and listeners)",
-	"the *net.UDPConn-only path: readUDP, SessionUDP, OOB control messages, setUDPSocketOptions",
+	"the setsockopt calls of setUDPSocketOptions; in the unmodified-tree builds also the rest of the *net.UDPConn-only path (readUDP, SessionUDP, control messages) - the instrumented builds run it over simnet.UDPConn through an interface substituted for *net.UDPConn",
 }
 
 func init() {
 	cfgs["C13"] = &propCfg{
 		Workers: map[string]int{"pristine": 4, "instr": 5, "pristine-race": 3, "instr-race": 4},
 		QuickS:  35, ThorS: 600,
-		Real: []string{"Server.ActivateAndServe", "serveTCP", "serveUDP (generic PacketConn branch)", "serveTCPConn", "serveUDPPacket", "serveDNS", "readTCP", "readPacketConn", "response.WriteMsg/Write/Close", "Shutdown/ShutdownContext", "Conn.WriteMsg/ReadMsg (client side)", "Msg.Pack/Unpack"},
+		Real: []string{"Server.ActivateAndServe", "serveTCP", "serveUDP (generic PacketConn branch; UDP socket branch with readUDP/ReadFromSessionUDP/WriteToSessionUDP/correctSource in the instrumented builds)", "serveTCPConn", "serveUDPPacket", "serveDNS", "readTCP", "readPacketConn", "response.WriteMsg/Write/Close", "Shutdown/ShutdownContext", "Conn.WriteMsg/ReadMsg (client side)", "Msg.Pack/Unpack"},
 		Stub: stubCommon,
 		Rule: "A run = one generated lifecycle scenario (transport, 0..k clients with query/partial/idle/close/reset operations, handler plans, start/second start/early shutdown/Shutdown or ShutdownContext/concurrent and repeated shutdowns) executed under one seeded schedule. Non-trivial = at least one handler ran or a misuse call (second start, extra shutdown) was made. Distinct = distinct trace digest (hash of every scheduling decision, seam call and effect of the run), counted per build.",
 		Assume: append([]string{
